@@ -506,7 +506,16 @@ pub fn run_in_workers(prop: &str, dir: &std::path::Path, cases: &[String], timeo
         let outp = dir.join(format!("worker_out_{}.txt", round));
         std::fs::write(&inp, cases[start..].join("\n") + "\n").unwrap();
         let _ = std::fs::remove_file(&outp);
-        let mut child = std::process::Command::new(&exe)
+        // optional address-space cap (kB) so that a runaway allocation kills the worker, not the machine
+        let vmem = std::env::var("VERIF_WORKER_VMEM_KB").ok();
+        let mut cmd = if let Some(kb) = &vmem {
+            let mut c = std::process::Command::new("sh");
+            c.arg("-c").arg(format!("ulimit -v {}; exec \"$0\" \"$@\"", kb)).arg(&exe);
+            c
+        } else {
+            std::process::Command::new(&exe)
+        };
+        let mut child = cmd
             .arg(prop)
             .arg("--worker")
             .arg(&inp)
@@ -607,6 +616,7 @@ pub fn run_case(line: &str, slow_ms: u128, emit: &mut dyn FnMut(String)) {
     let mut resized = false;
     let mut hash: u64 = 14695981039346656037;
     let mut tok_start = std::time::Instant::now();
+    let mut tok_lines = 0usize;
     let modelled = matches!(emu, Emu::Ansi(_));
     let mut items: Vec<String> = Vec::new();
     let mut mh: u64 = 14695981039346656037;
@@ -618,6 +628,7 @@ pub fn run_case(line: &str, slow_ms: u128, emit: &mut dyn FnMut(String)) {
         }
         if i == 0 || labels[i] != labels[i - 1] {
             tok_start = std::time::Instant::now();
+            tok_lines = t.buf.layers[0].lines.len();
         }
         let out = t.feed(*ch);
         if modelled {
@@ -682,8 +693,13 @@ pub fn run_case(line: &str, slow_ms: u128, emit: &mut dyn FnMut(String)) {
             let ms = tok_start.elapsed().as_millis();
             let lines = t.buf.layers[0].lines.len();
             let th = t.buf.terminal_state.get_height().max(h) as usize;
-            if ms >= slow_ms || lines > th + i + 2 {
-                emit(format!("T {} {} {} {}", i, labels[i], ms, lines));
+            // a token may add at most a screenful of rows (macro invocations: bounded by the expansion budget instead)
+            let grew = lines.saturating_sub(tok_lines);
+            let is_macro = labels[i].contains("CSI_z") || labels[i].contains("DCS") || labels[i] == "raw";
+            let tok_len = labels[..=i].iter().rev().take_while(|l| **l == labels[i]).count();
+            let avt = if labels[i].starts_with("AVTrep") { 255 } else { 0 }; // an Avatar repeat is up to 255 characters
+            if ms >= slow_ms || (!is_macro && grew > th + 2 + tok_len + avt) {
+                emit(format!("T {} {} {} {}", i, labels[i], ms, grew));
             }
         }
     }
